@@ -28,9 +28,24 @@ def d3_emitters_use_current_bundle(ctx, rm: REModel):
             fn = c.func
             if isinstance(fn, ast.Name):
                 local_defs = [s for s in A.walk_stmts(f.body) if isinstance(s, ast.Assign) and any(isinstance(t, ast.Name) and t.id == fn.id for t in s.targets)]
-                from_current = bool(local_defs) and all("self._descriptors" in A.norm(d.value) or any(
-                    isinstance(n, ast.Name) and any(isinstance(s2, ast.Assign) and any(isinstance(t, ast.Name) and t.id == n.id for t in s2.targets) and "self._descriptors" in A.norm(s2.value)
-                                                    for s2 in A.walk_stmts(f.body)) for n in ast.walk(d.value)) for d in local_defs)
+                lookups = {t.id for s2 in A.walk_stmts(f.body) if isinstance(s2, ast.Assign) and "self._descriptors" in A.norm(s2.value)
+                           for t in s2.targets if isinstance(t, ast.Name)}
+
+                def current(d):
+                    return "self._descriptors" in A.norm(d.value) or any(isinstance(n, ast.Name) and n.id in lookups for n in ast.walk(d.value))
+
+                def fallback_only(d):
+                    """a definition not taken from the current bundle is acceptable only where the lookup found nothing"""
+                    ff = next((x for x in ctx.repo.funcs.values() if x.node is f), None)
+                    if ff is None:
+                        return False
+                    gf = q.cfg(ff, q.quiet_policy(ctx.repo))
+                    for v in lookups:
+                        if q.guard_true_dominates(gf, d, lambda t, v=v: A.norm(t) in (f"{v} is not None", v), "F") is None or \
+                                q.guard_true_dominates(gf, d, lambda t, v=v: A.norm(t) in (f"{v} is None", f"not {v}"), "T") is None:
+                            return True
+                    return False
+                from_current = bool(local_defs) and any(current(d) for d in local_defs) and all(current(d) or fallback_only(d) for d in local_defs)
                 captured = not local_defs
             else:
                 from_current = "self._descriptors" in A.norm(fn)
